@@ -695,10 +695,48 @@ fn main() {
         Some("replay") => cmd_replay(&args[1..]),
         Some("selftest") => cmd_selftest(&args[1..]),
         Some("one") => cmd_one(&args[1..]),
+        Some("nonidem") => cmd_nonidem(),
         _ => {
             eprintln!("usage: clisim run|replay|selftest|one ...");
             2
         }
     };
     std::process::exit(code);
+}
+
+/// prints inputs of the known families on which one formatting pass is not a fixed point
+#[allow(dead_code)]
+fn cmd_nonidem() -> i32 {
+    use vsim::oracle::{fmt_uncached, Cfg, Fmt};
+    oracle::silence_panics();
+    let mut found = 0;
+    let mut cands: Vec<(String, Cfg)> = Vec::new();
+    for tab in [0usize, 1, 2] {
+        let c = Cfg { tab, ..Default::default() };
+        cands.push(("/ term: x\n  // note\n  body\n".to_string(), c));
+        cands.push(("- // note\n  item\n".to_string(), c));
+        cands.push(("+ // note\n  item\n".to_string(), c));
+    }
+    for n in 40..90 {
+        for blanks in [1usize, 3, 70] {
+            let c = Cfg::default();
+            cands.push((format!("#f(`{}{}\nsecond`)\n", "x".repeat(n), " ".repeat(blanks)), c));
+            cands.push((format!("#figure(box(`{}{}\nsecond`))\n", "x".repeat(n), " ".repeat(blanks)), c));
+            cands.push((format!("#raw(\"{}{}\n second\")\n", "x".repeat(n), " ".repeat(blanks)), c));
+        }
+    }
+    for (t, c) in cands {
+        if let Fmt::Ok(a) = fmt_uncached(&t, c) {
+            if let Fmt::Ok(b) = fmt_uncached(&a, c) {
+                if a != b {
+                    found += 1;
+                    if found <= 12 {
+                        println!("{:?} tab={} col={}", t, c.tab, c.column);
+                    }
+                }
+            }
+        }
+    }
+    println!("{} non-idempotent candidates", found);
+    0
 }
